@@ -195,6 +195,23 @@ func genMigrationTags(t *rapid.T, o GenOptions, f *FieldSpec, label string, inPt
 			}
 		case 4:
 			f.Index = "index:,composite:grp"
+			if rapid.Bool().Draw(t, label+".idxprio") {
+				f.Index += ",priority:" + rapid.SampledFrom([]string{"1", "2", "12"}).Draw(t, label+".prio")
+			}
+		}
+		// index options
+		if f.Index == "index" {
+			switch rapid.IntRange(0, 5).Draw(t, label+".idxopt") {
+			case 0:
+				f.Index = "index:,sort:desc"
+			case 1:
+				f.Index = "index:,where:marker > 0"
+			case 2:
+				if k.distinct != nil && k.Family != FBool && !inPtrGroup && f.Default == nil && f.AutoTime == "" {
+					f.Index = "index:,unique"
+					f.DistinctValue = true
+				}
+			}
 		}
 	}
 	if k.distinct != nil && k.Family != FBool && !inPtrGroup && f.Default == nil && f.AutoTime == "" && f.Index != "uniqueIndex" &&
@@ -220,7 +237,24 @@ func genMigrationTags(t *rapid.T, o GenOptions, f *FieldSpec, label string, inPt
 			f.CheckName = "chk_" + strings.ToLower(f.Name)
 		}
 	}
-	if k.Family == FString && rapid.IntRange(0, 2).Draw(t, label+".hassize") == 0 {
+	switch rapid.IntRange(0, 9).Draw(t, label+".extra") {
+	case 0:
+		f.Extra = append(f.Extra, "comment:"+rapid.SampledFrom([]string{"note", "two words", "it's"}).Draw(t, label+".comment"))
+	case 1:
+		if k.Family == FFloat {
+			f.Extra = append(f.Extra, "precision:10", "scale:2")
+		}
+	case 2:
+		if k == KString || k.Name == "*string" || k == KNullString {
+			n := rapid.SampledFrom([]int{32, 100, 255}).Draw(t, label+".varchar")
+			f.Extra = append(f.Extra, fmt.Sprintf("type:varchar(%d)", n))
+			if rapid.Bool().Draw(t, label+".varcharsize") {
+				f.Size = n
+			}
+		}
+	}
+	// (a size: that contradicts type:varchar(n) is a contradictory model: not generated)
+	if k.Family == FString && f.Size == 0 && len(f.Extra) == 0 && rapid.IntRange(0, 2).Draw(t, label+".hassize") == 0 {
 		f.Size = rapid.SampledFrom([]int{16, 100, 255, 1024}).Draw(t, label+".size")
 	}
 	if !inPtrGroup && rapid.IntRange(0, 5).Draw(t, label+".nn") == 0 && (f.Default == nil || !strings.EqualFold(f.Default.Tag, "null")) {
@@ -349,7 +383,7 @@ func hasDistinct(s *StructSpec) bool {
 			if hasDistinct(f.Embedded) {
 				return true
 			}
-		} else if f.DistinctValue || f.Check != "" || strings.HasPrefix(f.Index, "index:idx_") {
+		} else if f.DistinctValue || f.Check != "" || strings.HasPrefix(f.Index, "index:idx_") || strings.Contains(f.Index, "where:") || strings.Contains(f.Index, "sort:") {
 			// explicitly named indexes / checks would be declared twice
 			return true
 		}
